@@ -181,7 +181,7 @@ PROPS = {
         "technique": "Coq proof (path cleaning invariant by induction; case analysis of the decision function) + correspondence over a real directory tree",
         "level_text": "proof (partial): C16_clean_no_dotdot / C16_clean_no_slash for every byte string, C16_contained (whatever is served is a regular file reached by plain components below the directory), C16_other_methods_silent, C16_prefix_boundary, C16_redirect_slash about the Gallina model of static.go over a model of path.Clean / http.Dir.Open / a file tree; tied to the code by serving requests over a real temp tree with files outside the served directory, a sibling directory whose name extends it, a directory named like the prefix and one named like the index file",
         "level_note": "trusts Coq kernel, extraction, glue; http.Dir, os (symbolic links), http.ServeContent (Range/If-Modified-Since) are modelled or oracles, validated by the correspondence only; request paths start with '/'",
-        "rule": "half of the paths are real paths of the tree or classic traversals (/../secret.txt, /sub/../../secret.txt, //a.txt, /a.txt/..), half are 0-4 random components from a 27-entry pool (tree names, .., ., empty, NUL, %2e%2e, ..., names outside the directory), with doubled and trailing slashes; prefix from 8 spellings with look-alikes (prefix+'x', prefix+'2'); methods GET 75% / HEAD / others; Index custom 20%; ETag/Expires/CacheControl toggled; with ETag a second request carries If-None-Match; one case in six leaves Directory empty and runs in a working directory whose public entry is the tree. Non-trivial: something is served/redirected, or a path with '..' is passed on; distinct by input.",
+        "rule": "half of the paths are real paths of the tree or classic traversals (/../secret.txt, /sub/../../secret.txt, //a.txt, /a.txt/..), half are 0-4 random components from a 27-entry pool (tree names, .., ., empty, NUL, %2e%2e, ..., names outside the directory), with doubled and trailing slashes; prefix from 8 spellings with look-alikes (prefix+'x', prefix+'2'); methods GET 75% / HEAD / others; Index custom 20%; ETag/Expires/CacheControl toggled; with ETag a second request carries If-None-Match; one case in six leaves Directory empty and runs in a working directory whose public entry is the tree; one case in five opens the directory through http.FS(os.DirFS(dir)) instead of http.Dir. Non-trivial: something is served/redirected, or a path with '..' is passed on; distinct by input.",
         "what": "pass / redirect Location / served file identity (+ header presence) / 304 per request vs model; spec: served files are inside the directory, only GET/HEAD under the prefix boundary are answered, redirects end in '/'.",
         "assumes": ["URL.Path starts with '/'", "no symbolic links in the served tree"],
     },
